@@ -32,13 +32,13 @@ const char* const kFaultNames[] = { "chunked_read", "short_read", "eintr_read", 
 enum ProbeId { P_returned, P_threw_std_exception, P_threw_in_setup, P_file_source_read, P_env_source_read, P_argfile_argument_read,
                P_eio_while_reading, P_read_after_short_read, P_progname_without_slash, P_progname_len_0_or_1,
                P_progname_long, P_progname_only_slashes, P_double_dash_word, P_control_char_word, P_punct_only_word,
-               P_nul_in_file, P_long_line_in_file, P_usage_printed, P_subgroup, P_evaluated_twice, P_many_words };
+               P_nul_in_file, P_long_line_in_file, P_usage_printed, P_subgroup, P_evaluated_twice, P_many_words, P_groups_evaluation };
 const char* const kProbeNames[] = { "evaluation_returned", "threw_std_exception", "threw_in_setup", "file_source_read",
                "env_source_read", "argument_file_argument_read", "eio_while_reading_a_source", "read_after_short_read",
                "program_name_without_slash", "program_name_of_length_0_or_1", "program_name_longer_than_200",
                "program_name_only_slashes", "double_dash_word", "control_character_word", "punctuation_only_word",
                "nul_byte_in_file", "line_longer_than_1000_in_file", "usage_printed", "sub_group", "same_handler_evaluated_twice",
-               "more_than_12_words" };
+               "more_than_12_words", "two_handlers_through_groups_singleton" };
 
 using recipes::randomBytes;
 using recipes::punctWord;
@@ -122,6 +122,22 @@ public:
       plan[ "arg_file_arg"] = cfg.chance( 1, 3);
       plan[ "named_env"] = cfg.chance( 1, 4);
       plan[ "repeat"] = cfg.chance( 1, 8) ? 2 : 1;
+      // a minority of runs: two handlers from the Groups singleton, evaluated
+      // through Groups::evalArguments(); the second one takes the list recipes
+      if (cfg.chance( 1, 6))
+      {
+         Json  r2 = recipes::genRecipe( cfg, false, false);
+         Json  s1 = Json::array(), s2 = Json::array();
+         for (auto const& x : recipe.get( "sets").arr())
+            if (x.s() == "R1" || x.s() == "R2" || x.s() == "R3" || x.s() == "R11" || x.s() == "R12") s1.push( x);
+         for (auto const& x : r2.get( "sets").arr())
+            if (x.s() == "R4" || x.s() == "R5" || x.s() == "R6" || x.s() == "R7" || x.s() == "R8") s2.push( x);
+         if (s2.size() == 0) s2.push( "R4");
+         recipe[ "sets"] = s1;
+         r2[ "sets"] = s2;
+         plan[ "recipe"] = recipe;
+         plan[ "recipe2"] = r2;
+      }
 
       recipes::Built  built;
       {
@@ -245,6 +261,11 @@ public:
       recipes::EvalCfg  cfg;
       const Json&       recipe = plan.get( "recipe");
       cfg.recipe = &recipe;
+      if (plan.get( "recipe2").isObj())
+      {
+         cfg.recipe2 = &plan.get( "recipe2");
+         st.probe( P_groups_evaluation);
+      }
       cfg.flags = Handler::hfUsageCont;   // exit() is never a legitimate outcome
       const Json&  fj = plan.get( "flags");
       for (size_t k = 0; k < fj.size(); ++k)
